@@ -527,7 +527,9 @@ func execConcurrent(cs hx.Sx) hx.Sx {
 				defer wg.Done()
 				for n, c := range script {
 					kv := hx.Items(c)
-					p.Commit(pipeline.VerifC07Event(pipeline.SourceID(sid), uint64(n+1), hx.Int(kv[1]), hx.Str(kv[0])))
+					e, recycle := c07Event(sid, uint64(n+1), hx.Int(kv[1]), hx.Str(kv[0]))
+					p.Commit(e)
+					recycle() // the stream name was borrowed: its buffer is overwritten once commit returned
 					if n%3 == 0 {
 						runtime.Gosched()
 					}
@@ -632,7 +634,9 @@ func execOverlap(cs hx.Sx, syncMode bool) hx.Sx {
 						pos[i]++
 						progressed = true
 						started[i].Add(1)
-						p.Commit(pipeline.VerifC07Event(pipeline.SourceID(table[i].SourceID), uint64(pos[i]), hx.Int(kv[1]), hx.Str(kv[0])))
+						e, recycle := c07Event(table[i].SourceID, uint64(pos[i]), hx.Int(kv[1]), hx.Str(kv[0]))
+						p.Commit(e)
+						recycle() // borrowed stream name, overwritten before the save below
 						if !syncMode {
 							p.Save()
 						}
